@@ -16,6 +16,7 @@ mod c04;
 mod c06;
 mod c11;
 mod c12;
+mod c15;
 
 use common::Ctx;
 
@@ -55,6 +56,7 @@ fn main() {
         "c06" => c06::run(&mut ctx),
         "c11" => c11::run(&mut ctx),
         "c12" => c12::run(&mut ctx),
+        "c15" => c15::run(&mut ctx),
         _ => {
             eprintln!("unknown suite {}", suite);
             std::process::exit(2);
